@@ -163,6 +163,45 @@ def execute(case):
                 raise env.HarnessError("valid pool transaction refused")
             pool.append(tx)
             fees += fee
+        if case.get("reorg_after_pool") and not deep and pool and head.height >= 1 and not info.get("net_flush_failures"):
+            # history between admission and the find: ANOTHER miner's block S competes with our head (same height) and confirms
+            # the first pending payment; then S is extended by S2 -> a reorganisation of depth 1 onto a head one higher than before.
+            # What is still pending afterwards must be spendable at the new head (and only that goes into the candidate).
+            w_ = run.world
+            hl = next(l for l, x in w_.blocks.items() if x.id() == head.id)
+            pl = next(l for l, x in w_.blocks.items() if x.id() == head.blk.prev)
+            pn = led.nodes[head.blk.prev]
+            conf = [t for t in pool if all((i[0], i[1]) in pn.utxo for i in t.ins)][:1]
+            for j, t in enumerate(conf):
+                w_.txs["pooled%d" % j] = t
+            S = w_.build_block({"label": "reorgS", "parent": pl, "miner": 2, "dt": w_.safe_dt(pn, max(1, head.blk.ts - pn.blk.ts)), "txs": [{"copy": "pooled%d" % j} for j in range(len(conf))]})
+            if S is not None and not led.validate(S, S.ts):
+                w_.accept("reorgS", S)
+                S2 = w_.build_block({"label": "reorgS2", "parent": "reorgS", "miner": 3, "dt": w_.safe_dt(led.nodes[S.id()], 7), "txs": []})
+                if S2 is not None and not led.validate(S2, S2.ts):
+                    simnet.CLOCK.now = max(simnet.CLOCK.now, S2.ts)
+                    for blk_ in (S, S2):
+                        peers[0].send(M.DataMessage(M.DATA_BLOCK, b.to_sk_block(blk_)))
+                        peers[0].deliver()
+                        net.drain(None, only=[node])
+                    if node.cm.coinstate.current_chain_hash == S2.id():
+                        w_.accept("reorgS2", S2)
+                        head = led.nodes[S2.id()]
+                        cs = node.cm.coinstate
+                        info["reorg_after_pool"] = 1
+                        keep = [t for t in pool if all((i[0], i[1]) in head.utxo for i in t.ins)]
+                        got_ids = [t.hash() for t in node.cm.transaction_pool]
+                        keep_ids = {t.id() for t in keep}
+                        if any(i not in keep_ids for i in got_ids):
+                            # (holding FEWER than could be kept is a policy the node is free to have; holding a payment whose
+                            # input is gone at the new head is what poisons every candidate from here on)
+                            fail("pool", "pending-transaction-unspendable-after-reorganisation", "after a reorganisation of depth 1 the node still holds %d pending transaction(s) whose inputs are not unspent at the new head (%d held, %d admitted before)" % (
+                                sum(1 for i in got_ids if i not in keep_ids), len(got_ids), len(pool)))
+                        in_pool = {t.id(): t for t in pool}
+                        pool = [in_pool[i] for i in got_ids if i in keep_ids]
+                        fees = sum(sum(head.utxo[(i[0], i[1])][0] for i in t.ins) - sum(v for v, _pk in t.outs) for t in pool)
+                        for w in peers:
+                            w.collect()
         info["pool"] = len(pool)
         info["boundary"] = (head.height + 1) % case["cfg"][0] == 0
         wk = [KEYS[i] for i in (4, 5, 6, 7)]
@@ -218,8 +257,15 @@ def execute(case):
                 t_asm += 1                                   # the clock moves on between attempts, as it does in reality
                 t_found = max(t_found, t_asm)
             simnet.CLOCK.now = t_asm
-            with env.quiet():
-                mw.handle_request_scrypt_input_message(0, nonce & 0xFFFFFFFF)
+            try:
+                with env.quiet():
+                    mw.handle_request_scrypt_input_message(0, nonce & 0xFFFFFFFF)
+            except Exception as e:
+                fail("assembly", "candidate-assembly-raised:" + exc_sig(e), "the watcher's handler for a miner's request for work raised %r (head h=%d, %d pending transactions%s): the message loop dies, no block is found any more" % (
+                    e, head.height, len(node.cm.transaction_pool), ", after a reorganisation" if info.get("reorg_after_pool") else ""))
+                info["found"] = 0
+                info.setdefault("boundary", False)
+                return fails, info
             mt, (summary, height) = mw.send_queues[0].items[-1]
             del mw.send_queues[0].items[:]
             state_before = mw.coinstate
@@ -589,7 +635,8 @@ def run(shard, tier, seed):
         case = chainexec.gen_case(rnd, cfg if deepd is None else chainexec.CFGS[3], nb, 0.0, ["C01"], deep=deepd, p_tx=0.6, p_fork=0.3)
         case.update(asm_off=asm_off, found_delay=found_delay, n_pool=n_pool, fee_sel=fee_sel, nonce0=rnd.randrange(1 << 32),
                     second_find=rnd.random() < 0.5, tick_every=rnd.choice([0, 0, 1, 3, 40]), dead_peer=rnd.random() < 0.3,
-                    next_request=rnd.random() < 0.6, net_flush_race=rnd.random() < 0.3, net_flush_fails=rnd.random() < 0.25, shared_host=rnd.random() < 0.3)
+                    next_request=rnd.random() < 0.6, net_flush_race=rnd.random() < 0.3, net_flush_fails=rnd.random() < 0.25, shared_host=rnd.random() < 0.3,
+                    reorg_after_pool=rnd.random() < 0.3)
         try:
             fails, info = execute(case)
         except env.HarnessError as e:
@@ -599,6 +646,7 @@ def run(shard, tier, seed):
         res.count("finds", info["found"])
         res.count("cases_without_a_find_in_60000_attempts", info.get("unminable", 0))
         res.count("finds_with_pool", 1 if info["pool"] else 0)
+        res.count("finds_after_reorganisation_with_pending_transactions", info.get("reorg_after_pool", 0))
         res.count("finds_at_retarget_boundary", 1 if info["boundary"] else 0)
         res.count("finds_assembly_clock_not_after_head", 1 if info["early_clock"] else 0)
         res.count("deep_states", 1 if deepd else 0)
